@@ -5,10 +5,70 @@
 #include <string.h>
 #include <orc/orc.h>
 
+static void one (OrcTarget *t, const char *tname, unsigned flags, OrcStaticOpcode *op, int konst, unsigned long kval)
+{
+  OrcProgram *p = orc_program_new ();
+  int args[4], n = 0;
+  if (op->flags & ORC_STATIC_OPCODE_ACCUMULATOR)
+    args[n++] = orc_program_add_accumulator (p, op->dest_size[0], "d1");
+  else
+    args[n++] = orc_program_add_destination (p, op->dest_size[0], "d1");
+  if (op->dest_size[1]) args[n++] = orc_program_add_destination (p, op->dest_size[1], "d2");
+  if (konst && !op->src_size[1]) {
+    /* unary: feed it a constant through a temporary: copy t1 <- const is not needed; use the constant directly */
+    args[n++] = (op->src_size[0] == 8) ? orc_program_add_constant_int64 (p, 8, (orc_int64) kval, "c0")
+                                       : orc_program_add_constant (p, op->src_size[0], (int) kval, "c0");
+  } else
+    args[n++] = orc_program_add_source (p, op->src_size[0], "s1");
+  if (op->src_size[1]) {
+    if (konst || (op->flags & ORC_STATIC_OPCODE_SCALAR))
+      args[n++] = (op->src_size[1] == 8) ? orc_program_add_constant_int64 (p, 8, (orc_int64) kval, "c1")
+                                         : orc_program_add_constant (p, op->src_size[1], (int) kval, "c1");
+    else args[n++] = orc_program_add_source (p, op->src_size[1], "s2");
+  }
+  if (op->src_size[2]) args[n++] = orc_program_add_constant (p, op->src_size[2], 1, "c2");
+  while (n < 4) args[n++] = 0;
+  orc_program_append_2 (p, op->name, 0, args[0], args[1], args[2], args[3]);
+  OrcCompileResult r = orc_program_compile_full (p, t, flags);
+  printf ("# target=%s flags=0x%x opcode=%s const=%d:0x%lx result=0x%x\n", tname, flags, op->name, konst, kval, (unsigned) r);
+  const char *a = orc_program_get_asm_code (p);
+  if (a && ORC_COMPILE_RESULT_IS_SUCCESSFUL (r)) fputs (a, stdout);
+  orc_program_free (p);
+}
+
+/* isa_demo scan <target> <const-hex> [opcode ...]: every opcode (or the listed ones) x every subset of the target's
+ * feature bits x {array operand, constant operand} */
+static int scan (int argc, char **argv)
+{
+  OrcTarget *t = orc_target_get_by_name (argv[2]);
+  unsigned long kval = strtoul (argv[3], NULL, 16);
+  static const unsigned sse_bits[] = {1, 2, 4, 8, 16}, avx_bits[] = {1, 2, 4, 8, 16, 1024, 2048}, mmx_bits[] = {1, 2, 16, 32, 64};
+  const unsigned *bits = sse_bits; int nb = 5;
+  if (!t) return 2;
+  if (!strcmp (argv[2], "avx")) { bits = avx_bits; nb = 7; }
+  if (!strcmp (argv[2], "mmx")) { bits = mmx_bits; nb = 5; }
+  OrcOpcodeSet *set = orc_opcode_set_get ("sys");
+  for (int o = 0; o < set->n_opcodes; o++) {
+    OrcStaticOpcode *op = set->opcodes + o;
+    if (argc > 4) { int f = 0; for (int i = 4; i < argc; i++) if (!strcmp (argv[i], op->name)) f = 1; if (!f) continue; }
+    if (!strncmp (op->name, "load", 4) || !strncmp (op->name, "store", 5) || !strncmp (op->name, "ldres", 5)) {
+      if (strcmp (op->name, "loadpb") && strcmp (op->name, "loadpw") && strcmp (op->name, "loadpl") && strcmp (op->name, "loadpq")) continue;
+    }
+    for (unsigned m = 0; m < (1u << nb); m++) {
+      unsigned flags = 512;
+      for (int b = 0; b < nb; b++) if (m & (1u << b)) flags |= bits[b];
+      one (t, argv[2], flags, op, 0, kval);
+      one (t, argv[2], flags, op, 1, kval);
+    }
+  }
+  return 0;
+}
+
 int main (int argc, char **argv)
 {
   if (argc < 4) return 2;
   orc_init ();
+  if (!strcmp (argv[1], "scan")) return scan (argc, argv);
   OrcTarget *t = orc_target_get_by_name (argv[1]);
   unsigned flags = strtoul (argv[2], NULL, 16);
   OrcStaticOpcode *op = orc_opcode_find_by_name (argv[3]);
